@@ -278,6 +278,11 @@ impl Scenario for Reward {
                 v.push(burn_from(DAVE, u, BSEI, 1));
                 v.push(unbond_from(DAVE, u, BSEI, 1));
                 v.push(transfer_from(DAVE, u, other, BSEI, 0));
+                if self.with_sink && i == 0 {
+                    // a contract that holds an allowance pulls the owner's tokens into itself (spender == receiving contract)
+                    v.push(increase_allowance(u, AIRDROP, BSEI, 2, None));
+                    v.push(exec(format!("pull_into_self(airdrop,{},1)", u), AIRDROP, BSEI, serde_json::json!({"send_from":{"owner":u,"contract":AIRDROP,"amount":"1","msg":hook("anything")}}), &[]));
+                }
             }
         }
         if self.with_allowance {
